@@ -70,6 +70,8 @@ def _trailing_backslashes_regex(m):
 
 _sub_re = Replacer()
 _sub_re.add("^RE:", "")
+_sub_re.add(r"\\.", r"\&")  # keep anything backslashed (an escaped paren is a literal)
+_sub_re.add(r"\[\^?\]?(?:[^\]\\]|\\.)*\]", r"\&")  # keep character classes as they are
 _sub_re.add("\\((?!\\?)", "(?:")
 _sub_re.add("\\(\\?P<.*>", _invalid_regex("(?:"))
 _sub_re.add("\\(\\?P=[^)]*\\)", _invalid_regex(""))
